@@ -1380,6 +1380,34 @@ def r11_shared_base_samples(check, prog):
                                         x.value.id == selfname) for x in _ast.walk(n))
                 if uses and descends:
                     handed = True
+        # ... and in the slot it is read from: a nested `.sample(...)` call is a call
+        # of this very method, so the table must arrive in the parameter the table is
+        # initialised from (`memo = {} if _memo is None else _memo`)
+        params = [a.arg for a in fd.args.args]
+        table_params = {t for t in tables if t in params}
+        for n in _ast.walk(fd):
+            if isinstance(n, _ast.Assign) and any(
+                    isinstance(t, _ast.Name) and t.id in tables for t in n.targets):
+                table_params |= {x.id for x in _ast.walk(n.value)
+                                 if isinstance(x, _ast.Name) and x.id in params}
+        misplaced = []
+        for n in _ast.walk(fd):
+            if isinstance(n, _ast.Call) and isinstance(n.func, _ast.Attribute) and \
+                    n.func.attr == 'sample' and table_params:
+                for i, a in enumerate(n.args):
+                    if isinstance(a, _ast.Name) and a.id in tables and \
+                            i + 1 < len(params) and params[i + 1] not in table_params:
+                        misplaced.append((params[i + 1], n.lineno))
+                for k in n.keywords:
+                    if isinstance(k.value, _ast.Name) and k.value.id in tables and \
+                            k.arg in params and k.arg not in table_params:
+                        misplaced.append((k.arg, n.lineno))
+        check.require(not misplaced, 'R11-draws-shared-across-levels',
+                      'TransformedPrior.sample table slot',
+                      'the table is handed to the nested sample() in the parameter it is '
+                      'read from', loc,
+                      fail_detail='the table arrives as %s: the nested call then reads '
+                      'the table as the sample size' % misplaced)
         check.require(handed, 'R11-draws-shared-across-levels', 'TransformedPrior.sample',
                       'the table of draws made so far reaches operands that are derived '
                       'priors themselves', loc,
